@@ -3,6 +3,9 @@
 
    Transcribed from /repo/internal/ingest/arrow_writer.go (current tree):
      getColumnSignature            -> sig_string          (the signature is the STRING the code builds)
+     bufferSchemaKey               -> buffer_key          (the routing key stored in bufferSchemas: the signature
+                                                           for plain names, else a length-prefixed encoding of
+                                                           EVERY column; commit 5cfca39)
      writeColumnarInternal /
      writeTypedColumnarRaw         -> write_rec           (schema-change flush in the handler goroutine,
                                                            append, size-triggered extraction)
@@ -11,9 +14,16 @@
      mergeBatches                  -> merge               (type assertion panic)
      flushPartitionedData          -> flush_partitioned   (single/multi hour, sort, applyPermutation)
      getSchema / inferSchema /
-     WriteParquetColumnar          -> write_parquet       (name[0] on an empty name, array.NewRecord)
+     WriteParquetColumnar          -> write_parquet       (empty and '_' names are skipped since 6c35f6a;
+                                                           array.NewRecord)
      flushWorker / periodicFlush /
      FlushAll                      -> background flushes in [step]
+     flushRecordsAsync's recover,
+     flushRecovered                -> [recover_flush]: since 763beab a panic while merging or writing FAILS that
+                                      flush (the extracted batches are dropped, not retried; with a WAL they
+                                      would be replayed - the WAL is not modelled) instead of killing the process.
+                                      The flag is [true] for the code as it is; [false] keeps the previous
+                                      behaviour so that the no-panic theorem is not true by construction.
    and from /repo/internal/api/server.go: handler panics are recovered by the fiber recover
    middleware (HTTP 500), panics on any other goroutine kill the process.
 
@@ -26,7 +36,7 @@
    int64 columns' are dropped (only lengths are kept); validity bitmaps have the length of their
    column in every decoder and are not represented; storage never fails; one request at a
    time. *)
-From Coq Require Import List ZArith NArith Bool Arith.
+From Coq Require Import List ZArith NArith Bool Arith Decimal.
 Import ListNotations.
 
 Definition bytes := list N.
@@ -55,6 +65,7 @@ Fixpoint alookup {V} (k : bytes) (l : list (bytes * V)) : option V :=
 Definition c_comma : N := 44.
 Definition c_colon : N := 58.
 Definition c_under : N := 95.
+Definition c_semi : N := 59.
 Definition k_time : bytes := [116; 105; 109; 101]%N.
 
 (* ------------------------------------------------------------------------------------ *)
@@ -123,10 +134,42 @@ Definition sig_entries (cols : list (bytes * cdata)) : list (bytes * colty) :=
 Definition sig_string (b : tbatch) : bytes := join (map entry (sig_entries (tb_cols b))).
 
 (* ------------------------------------------------------------------------------------ *)
+(* bufferSchemaKey                                                                        *)
+
+Definition no_comma (n : bytes) : bool := forallb (fun c => negb (N.eqb c c_comma)) n.
+
+(* plain: len(name) != 0 && name[0] != '_' && no ',' in name *)
+Definition name_ok (n : bytes) : bool := counted n && no_comma n.
+Definition all_plain (cols : list (bytes * cdata)) : bool := forallb (fun c => name_ok (fst c)) cols.
+
+(* strconv.Itoa of a length *)
+Fixpoint uint_bytes (u : Decimal.uint) : bytes :=
+  match u with
+  | Decimal.Nil => []
+  | Decimal.D0 r => 48%N :: uint_bytes r | Decimal.D1 r => 49%N :: uint_bytes r
+  | Decimal.D2 r => 50%N :: uint_bytes r | Decimal.D3 r => 51%N :: uint_bytes r
+  | Decimal.D4 r => 52%N :: uint_bytes r | Decimal.D5 r => 53%N :: uint_bytes r
+  | Decimal.D6 r => 54%N :: uint_bytes r | Decimal.D7 r => 55%N :: uint_bytes r
+  | Decimal.D8 r => 56%N :: uint_bytes r | Decimal.D9 r => 57%N :: uint_bytes r
+  end.
+Definition dec_nat (n : nat) : bytes := uint_bytes (Nat.to_uint n).
+
+(* len(name) ':' name ':' typ ';' *)
+Definition full_entry (e : bytes * colty) : bytes :=
+  dec_nat (length (fst e)) ++ c_colon :: fst e ++ c_colon :: tystr (snd e) ++ [c_semi].
+
+(* every column (also "" and '_'-prefixed ones), sorted by name, after a 0 byte *)
+Definition full_key (cols : list (bytes * cdata)) : bytes :=
+  0%N :: concat (map full_entry (isort (col_types cols))).
+
+Definition buffer_key (b : tbatch) : bytes :=
+  if all_plain (tb_cols b) then sig_string b else full_key (tb_cols b).
+
+(* ------------------------------------------------------------------------------------ *)
 (* outcomes                                                                               *)
 
 Inductive reason :=
-| PIndexEmptyName     (* name[0] with len(name) == 0: getSchema / inferSchema *)
+| PIndexEmptyName     (* name[0] with len(name) == 0: getSchema / inferSchema - unreachable since 6c35f6a, kept for replay classification *)
 | PTypeAssert         (* merged[name].([]T) on a column allocated with another type: mergeBatches *)
 | PIndexRange         (* col[idx] beyond the column: applyPermutation *)
 | PRecordRows.        (* array.NewRecord: a column shorter than the first schema field *)
@@ -210,17 +253,15 @@ Fixpoint sortedb (l : list Z) : bool :=
   | x :: r => match r with [] => true | y :: _ => (x <=? y)%Z && sortedb r end
   end.
 
-Definition has_empty_name (cols : list (bytes * cdata)) : bool :=
-  existsb (fun c => match fst c with [] => true | _ => false end) cols.
-
-(* schema fields: the columns whose name does not start with '_' *)
+(* schema fields: getSchema / inferSchema skip empty names and names starting with '_' *)
 Definition schema_cols (cols : list (bytes * cdata)) : list (bytes * cdata) :=
   filter (fun c => counted (fst c)) cols.
 
-(* WriteParquetColumnar on columns whose time column has [rows] rows *)
+(* WriteParquetColumnar on columns whose time column has [rows] rows: array.NewRecord takes the
+   row count of the FIRST schema field (Go map order) and panics when another one is shorter;
+   otherwise the Parquet writer refuses columns of different lengths *)
 Definition write_parquet (cols : list (bytes * cdata)) (rows : nat) : fres :=
-  if has_empty_name cols then FPanic PIndexEmptyName
-  else if forallb (fun c => Nat.eqb (len_of (snd c)) rows) (schema_cols cols) then FOk rows
+  if forallb (fun c => Nat.eqb (len_of (snd c)) rows) (schema_cols cols) then FOk rows
   else FMay PRecordRows.
 
 Definition flush_partitioned (b : tbatch) : fres :=
@@ -230,10 +271,8 @@ Definition flush_partitioned (b : tbatch) : fres :=
       if (hour_of (zmin t0 times) =? hour_of (zmax t0 times))%Z then
         if sortedb times then write_parquet (tb_cols b) n
         else if existsb (fun c => Nat.ltb (len_of (snd c)) n) (tb_cols b) then FPanic PIndexRange
-        else (* every column permuted to n rows *)
-          if has_empty_name (tb_cols b) then FPanic PIndexEmptyName else FOk n
-      else (* one slice per hour: sliceColumnsByIndices is bounds-safe, every slice is rectangular *)
-        if has_empty_name (tb_cols b) then FPanic PIndexEmptyName else FOk n
+        else FOk n      (* every column permuted to n rows *)
+      else FOk n        (* one slice per hour: sliceColumnsByIndices is bounds-safe, every slice is rectangular *)
   | _ => FErr                                   (* "no time data in batch" *)
   end.
 
@@ -275,7 +314,8 @@ Definition add_stored (k : key) (rows : nat) (st : state) : state :=
 
 Definition batch_rows (bs : list tbatch) : nat := fold_right (fun b a => tb_n b + a) 0 bs.
 
-Record cfg := { max_rows : N }.                 (* ingest.max_buffer_size *)
+(* ingest.max_buffer_size; whether a panic inside a flush is recovered (the code as it is: true) *)
+Record cfg := { max_rows : N; recover_flush : bool }.
 
 Definition task := (key * list tbatch)%type.      (* a flushTask on the worker queue *)
 
@@ -288,7 +328,7 @@ Inductive wres :=
 Definition append_batch (c : cfg) (st : state) (k : key) (b : tbatch) (bg : list task) : wres :=
   let bf := match get_buf k (st_bufs st) with
             | Some bf => {| bf_sig := bf_sig bf; bf_batches := bf_batches bf ++ [b] |}
-            | None => {| bf_sig := sig_string b; bf_batches := [b] |}
+            | None => {| bf_sig := buffer_key b; bf_batches := [b] |}
             end in
   if N.leb (max_rows c) (N.of_nat (batch_rows (bf_batches bf))) then
     WOk {| st_bufs := del_buf k (st_bufs st); st_stored := st_stored st |} (bg ++ [(k, bf_batches bf)])
@@ -298,15 +338,16 @@ Definition append_batch (c : cfg) (st : state) (k : key) (b : tbatch) (bg : list
 Definition write_rec (c : cfg) (st : state) (k : key) (b : tbatch) (bg : list task) : wres :=
   match get_buf k (st_bufs st) with
   | Some bf =>
-      if beqb (bf_sig bf) (sig_string b) then append_batch c st k b bg
+      if beqb (bf_sig bf) (buffer_key b) then append_batch c st k b bg
       else
-        (* schema evolution: flushBufferLocked in the HANDLER goroutine; the entry is deleted first *)
+        (* schema evolution: flushBufferLocked in the HANDLER goroutine; the entry is deleted first.
+           A failed flush (error, or recovered panic) is logged, its batches are gone, the write goes on *)
         let st1 := {| st_bufs := del_buf k (st_bufs st); st_stored := st_stored st |} in
         match flush_batches (bf_batches bf) with
         | FOk rows => append_batch c (add_stored k rows st1) k b bg
         | FErr => append_batch c st1 k b bg
-        | FPanic r => WPanic st1 r
-        | FMay _ => WMay st1
+        | FPanic r => if recover_flush c then append_batch c st1 k b bg else WPanic st1 r
+        | FMay _ => if recover_flush c then append_batch c st1 k b bg else WMay st1
         end
   | None => append_batch c st k b bg
   end.
@@ -360,16 +401,18 @@ Definition handle (c : cfg) (st : state) (d : dreq) : hres :=
 Inductive ending := Completed | Died (rs : list reason) | Unpredicted.
 
 (* flushes on goroutines nobody recovers: [rs] collects the panics, [may] the order-dependent ones *)
-Fixpoint run_tasks (ts : list task) (st : state) (rs : list reason) (may failed : bool)
+Fixpoint run_tasks (c : cfg) (ts : list task) (st : state) (rs : list reason) (may failed : bool)
   : state * list reason * bool * bool :=
   match ts with
   | [] => (st, rs, may, failed)
   | (k, bs) :: r =>
       match flush_batches bs with
-      | FOk rows => run_tasks r (add_stored k rows st) rs may failed
-      | FErr => run_tasks r st rs may true
-      | FPanic x => run_tasks r st (rs ++ [x]) may failed
-      | FMay _ => run_tasks r st rs true failed
+      | FOk rows => run_tasks c r (add_stored k rows st) rs may failed
+      | FErr => run_tasks c r st rs may true
+      | FPanic x => if recover_flush c then run_tasks c r st rs may true     (* recovered: this flush fails *)
+                    else run_tasks c r st (rs ++ [x]) may failed
+      | FMay _ => if recover_flush c then run_tasks c r st rs may true       (* panic or error: it fails either way *)
+                  else run_tasks c r st rs true failed
       end
   end.
 
@@ -384,14 +427,14 @@ Definition step (c : cfg) (st : state) (e : event) : state * option obs * ending
   | EReq d =>
       match handle c st d with
       | HDone st' s bg =>
-          let '(st2, rs, may, _) := run_tasks bg st' [] false false in
+          let '(st2, rs, may, _) := run_tasks c bg st' [] false false in
           (st2, Some (OStatus s), ending_of rs may)
       | HMay st' => (st', None, Unpredicted)
       end
   | EFlush =>
       let ts := map (fun kb => (fst kb, bf_batches (snd kb))) (st_bufs st) in
       let '(st2, rs, may, failed) :=
-        run_tasks ts {| st_bufs := []; st_stored := st_stored st |} [] false false in
+        run_tasks c ts {| st_bufs := []; st_stored := st_stored st |} [] false false in
       (st2, Some (OFlush failed), ending_of rs may)
   end.
 
@@ -433,12 +476,7 @@ Definition event_rows (e : event) : nat := match e with EReq d => dreq_rows d | 
 Definition events_rows (evs : list event) : nat := fold_right (fun e a => event_rows e + a) 0 evs.
 
 (* ------------------------------------------------------------------------------------ *)
-(* the guard: what a batch must satisfy for the positive theorems                         *)
-
-Definition no_comma (n : bytes) : bool := forallb (fun c => negb (N.eqb c c_comma)) n.
-
-(* non-empty, does not start with '_', contains no ',' *)
-Definition name_ok (n : bytes) : bool := counted n && no_comma n.
+(* the guard of the row-conservation theorems: what the code relies on but does not check     *)
 
 Fixpoint nodupb (l : list bytes) : bool :=
   match l with
@@ -446,9 +484,9 @@ Fixpoint nodupb (l : list bytes) : bool :=
   | x :: r => negb (existsb (beqb x) r) && nodupb r
   end.
 
+(* a Go map (unique names), an int64 time column, every column as long as the record count *)
 Definition batch_okb (b : tbatch) : bool :=
   nodupb (map fst (tb_cols b))
-  && forallb (fun c => name_ok (fst c)) (tb_cols b)
   && forallb (fun c => Nat.eqb (len_of (snd c)) (tb_n b)) (tb_cols b)
   && match alookup k_time (tb_cols b) with Some (DI _) => true | _ => false end.
 
